@@ -12,7 +12,9 @@
 //!   * the i-th `Ok` payload is what the i-th frame of an independent parse of all data bytes
 //!     stands for (flag 0: its payload; flag 1: the real decompressor's output),
 //!   * a valid stream yields exactly its messages, then `None`, no error,
-//!   * the ended body is polled at most once more during the drain.
+//!   * the ended body is polled at most once more during the drain,
+//!   * a data-only body that ends plainly inside a frame yields an error before the end of the
+//!     stream (also right after the five prefix bytes: F-C07e, fixed).
 use bytes::{Buf, Bytes};
 use http::{HeaderMap, HeaderName, HeaderValue};
 use http_body::{Body, Frame};
@@ -31,6 +33,27 @@ use vcommon::*;
 const IMPORTS: &str =
     "From Verif Require Import Lib.Bytes Lib.Obs Lib.HeaderMap Model.Status Model.Decoder.";
 const DEFAULT_LIMIT: usize = 4 * 1024 * 1024;
+
+// ------------------------------------------------------------------ allocation meter
+/// records the largest single allocation request; the model's ghost `Reserve n` events have no
+/// other observable counterpart (supporting check: a refused length must not be allocated)
+struct Meter;
+static MAX_ALLOC: AtomicUsize = AtomicUsize::new(0);
+unsafe impl std::alloc::GlobalAlloc for Meter {
+    unsafe fn alloc(&self, l: std::alloc::Layout) -> *mut u8 {
+        MAX_ALLOC.fetch_max(l.size(), Ordering::Relaxed);
+        std::alloc::System.alloc(l)
+    }
+    unsafe fn dealloc(&self, p: *mut u8, l: std::alloc::Layout) {
+        std::alloc::System.dealloc(p, l)
+    }
+    unsafe fn realloc(&self, p: *mut u8, l: std::alloc::Layout, n: usize) -> *mut u8 {
+        MAX_ALLOC.fetch_max(n, Ordering::Relaxed);
+        std::alloc::System.realloc(p, l, n)
+    }
+}
+#[global_allocator]
+static METER: Meter = Meter;
 
 // ------------------------------------------------------------------ the decoder under the stream
 struct RawDecoder {
@@ -208,6 +231,11 @@ fn trailers_map(t: &[(String, Vec<u8>)]) -> HeaderMap {
 
 // ------------------------------------------------------------------ Gallina literals
 /// byte string literal; long constant runs / ramps inside it become `rep` / `ramp` segments
+/// plain literal, split into `++`-joined pieces so that no single list literal is deeper than
+/// 4096 conses
+fn coq_bytes_lit(b: &[u8]) -> Vec<String> {
+    b.chunks(4096).map(coq_bytes).collect()
+}
 fn coq_bytes_seg(b: &[u8]) -> String {
     if b.len() < 80 {
         return coq_bytes(b);
@@ -234,14 +262,14 @@ fn coq_bytes_seg(b: &[u8]) -> String {
             continue;
         };
         if lit_start < i {
-            parts.push(coq_bytes(&b[lit_start..i]));
+            parts.extend(coq_bytes_lit(&b[lit_start..i]));
         }
         parts.push(txt);
         i = end;
         lit_start = end;
     }
     if lit_start < b.len() {
-        parts.push(coq_bytes(&b[lit_start..]));
+        parts.extend(coq_bytes_lit(&b[lit_start..]));
     }
     if parts.len() == 1 {
         parts.pop().unwrap()
@@ -334,6 +362,13 @@ impl R {
     fn tr(&self) -> Tr {
         match self {
             R::Pending => Tr::L(vec![Tr::n(0u8)]),
+            R::Ok(p) if p.len() > 4096 => {
+                let mut h: u64 = 7;
+                for b in p {
+                    h = (h * 31 + *b as u64 + 1) % 4294967291;
+                }
+                Tr::L(vec![Tr::n(1u8), Tr::n(p.len() as u64), Tr::n(h)])
+            }
             R::Ok(p) => Tr::L(vec![Tr::n(1u8), Tr::b(p)]),
             R::Err(c) => Tr::L(vec![Tr::n(2u8), Tr::n(*c as u32)]),
             R::Done => Tr::L(vec![Tr::n(3u8)]),
@@ -344,6 +379,7 @@ impl R {
 }
 
 struct Ran {
+    max_alloc: usize,
     t1: Vec<R>,
     pae1: usize,
     t2: Vec<R>,
@@ -372,6 +408,7 @@ fn run(inp: &Input, fuel: usize, extra: usize) -> Ran {
     let sh = shared.clone();
     let dir = inp.dir;
     let max = inp.max;
+    MAX_ALLOC.store(0, Ordering::SeqCst);
     let res = catch(std::panic::AssertUnwindSafe(move || {
         let mut s: Streaming<Vec<u8>> = match dir {
             Dir::Request => Streaming::new_request(dec, body, enc, max),
@@ -411,8 +448,148 @@ fn run(inp: &Input, fuel: usize, extra: usize) -> Ran {
             sh.lock().unwrap().3 = pae.load(Ordering::SeqCst);
         }
     }));
+    let max_alloc = MAX_ALLOC.load(Ordering::SeqCst);
     let g = shared.lock().unwrap();
-    Ran { t1: g.0.clone(), pae1: g.1, t2: g.2.clone(), pae2: g.3, drained: g.4, panic: res.err() }
+    Ran { max_alloc, t1: g.0.clone(), pae1: g.1, t2: g.2.clone(), pae2: g.3, drained: g.4, panic: res.err() }
+}
+
+// ------------------------------------------------------------------ isolation of one case
+// Every case runs in a child process (`h_decode --worker`, fed over a pipe), so that a poll that
+// never returns (or a process abort) costs a timeout and is reported as a failing case instead
+// of hanging the whole check.
+fn r_to_json(r: &R) -> Value {
+    match r {
+        R::Pending => json!(["P"]),
+        R::Ok(p) => json!(["O", hex(p)]),
+        R::Err(c) => json!(["E", c]),
+        R::Done => json!(["D"]),
+        R::Panic => json!(["X"]),
+        R::OutOfFuel => json!(["F"]),
+    }
+}
+fn r_from_json(v: &Value) -> R {
+    match v[0].as_str().unwrap() {
+        "P" => R::Pending,
+        "O" => R::Ok(unhex(v[1].as_str().unwrap())),
+        "E" => R::Err(v[1].as_i64().unwrap() as i32),
+        "D" => R::Done,
+        "X" => R::Panic,
+        _ => R::OutOfFuel,
+    }
+}
+fn ran_to_json(r: &Ran) -> Value {
+    json!({
+        "max_alloc": r.max_alloc, "t1": r.t1.iter().map(r_to_json).collect::<Vec<_>>(), "pae1": r.pae1,
+        "t2": r.t2.iter().map(r_to_json).collect::<Vec<_>>(), "pae2": r.pae2, "drained": r.drained, "panic": r.panic,
+    })
+}
+fn ran_from_json(v: &Value) -> Ran {
+    Ran {
+        max_alloc: v["max_alloc"].as_u64().unwrap() as usize,
+        t1: v["t1"].as_array().unwrap().iter().map(r_from_json).collect(),
+        pae1: v["pae1"].as_u64().unwrap() as usize,
+        t2: v["t2"].as_array().unwrap().iter().map(r_from_json).collect(),
+        pae2: v["pae2"].as_u64().unwrap() as usize,
+        drained: v["drained"].as_bool().unwrap(),
+        panic: v["panic"].as_str().map(|s| s.to_string()),
+    }
+}
+fn worker_main() {
+    use std::io::{BufRead, Write};
+    let stdin = std::io::stdin();
+    let stdout = std::io::stdout();
+    for line in stdin.lock().lines() {
+        let line = match line {
+            Ok(l) => l,
+            Err(_) => break,
+        };
+        let v: Value = serde_json::from_str(&line).unwrap();
+        let inp = Input::from_json(&v["input"]);
+        let ran = run(&inp, v["fuel"].as_u64().unwrap() as usize, v["extra"].as_u64().unwrap() as usize);
+        let mut o = stdout.lock();
+        writeln!(o, "{}", ran_to_json(&ran)).unwrap();
+        o.flush().unwrap();
+    }
+}
+struct Worker {
+    child: std::process::Child,
+    stdin: std::process::ChildStdin,
+    rx: std::sync::mpsc::Receiver<String>,
+}
+impl Worker {
+    fn spawn() -> Worker {
+        use std::io::BufRead;
+        let mut child = std::process::Command::new(std::env::current_exe().unwrap())
+            .arg("--worker")
+            .stdin(std::process::Stdio::piped())
+            .stdout(std::process::Stdio::piped())
+            .stderr(std::process::Stdio::null())
+            .spawn()
+            .unwrap();
+        let stdin = child.stdin.take().unwrap();
+        let stdout = child.stdout.take().unwrap();
+        let (tx, rx) = std::sync::mpsc::channel();
+        std::thread::spawn(move || {
+            for l in std::io::BufReader::new(stdout).lines() {
+                match l {
+                    Ok(l) => {
+                        if tx.send(l).is_err() {
+                            break;
+                        }
+                    }
+                    Err(_) => break,
+                }
+            }
+        });
+        Worker { child, stdin, rx }
+    }
+}
+static WORKER: Mutex<Option<Worker>> = Mutex::new(None);
+static HANGS: AtomicUsize = AtomicUsize::new(0);
+
+/// run one case in the worker process; a poll that does not return within the timeout, or a
+/// dying worker, is reported through `Ran::panic` ("HANG…" / "ABORT…")
+fn run_isolated(inp: &Input, fuel: usize, extra: usize) -> Ran {
+    // a time-out is confirmed by a second, longer attempt in a fresh process (a loaded machine
+    // must not look like a hang)
+    let many = HANGS.load(Ordering::SeqCst) >= 8;
+    let first = run_isolated_once(inp, fuel, extra, if many { 1 } else { 4 });
+    match &first.panic {
+        Some(p) if p.starts_with("HANG") => {
+            let second = run_isolated_once(inp, fuel, extra, if many { 4 } else { 15 });
+            if second.panic.as_deref().map(|p| p.starts_with("HANG")).unwrap_or(false) {
+                HANGS.fetch_add(1, Ordering::SeqCst);
+            }
+            second
+        }
+        _ => first,
+    }
+}
+fn run_isolated_once(inp: &Input, fuel: usize, extra: usize, secs: u64) -> Ran {
+    use std::io::Write;
+    let mut g = WORKER.lock().unwrap();
+    if g.is_none() {
+        *g = Some(Worker::spawn());
+    }
+    let w = g.as_mut().unwrap();
+    let req = json!({"input": inp.to_json(), "fuel": fuel, "extra": extra}).to_string();
+    let sent = writeln!(w.stdin, "{}", req).and_then(|_| w.stdin.flush());
+    let res = if sent.is_ok() { w.rx.recv_timeout(std::time::Duration::from_secs(secs)) } else { Err(std::sync::mpsc::RecvTimeoutError::Disconnected) };
+    match res {
+        Ok(line) => ran_from_json(&serde_json::from_str(&line).unwrap()),
+        Err(e) => {
+            let _ = w.child.kill();
+            let _ = w.child.wait();
+            *g = None;
+            let why = match e {
+                std::sync::mpsc::RecvTimeoutError::Timeout => {
+                    format!("HANG: the polls of this case did not return within {} s", secs)
+                }
+                _ => "ABORT: the process died while polling this case".to_string(),
+            };
+            Ran { max_alloc: 0, t1: vec![], pae1: 0, t2: vec![], pae2: 0, drained: false, panic: Some(why) }
+        }
+    }
 }
 
 fn all_data(inp: &Input) -> Vec<u8> {
@@ -425,12 +602,16 @@ fn all_data(inp: &Input) -> Vec<u8> {
     v
 }
 
+fn lenient_truncation() -> bool {
+    std::env::args().any(|a| a == "--lenient-truncation")
+}
+
 fn case(out: &mut Out, kind: &str, inp: &Input) {
     let data = all_data(inp);
     let (frames, leftover) = parse_frames(&data);
     let fuel = inp.evs.len() + frames.len() + 2;
     let extra = data.len().min(40) + 10;
-    let ran = run(inp, fuel, extra);
+    let ran = run_isolated(inp, fuel, extra);
 
     // decompression results of the real libraries for every flagged frame of the input
     let mut ztab: Vec<(u8, Vec<u8>, Option<Vec<u8>>)> = vec![];
@@ -451,7 +632,8 @@ fn case(out: &mut Out, kind: &str, inp: &Input) {
             t2.push(R::Panic.tr());
             Tr::L(vec![Tr::L(t1), Tr::n(ran.pae1 as u64), Tr::L(t2), Tr::n(ran.pae2 as u64)])
         } else {
-            t1.push(R::Panic.tr());
+            let hang = ran.panic.as_deref().map(|p| p.starts_with("HANG") || p.starts_with("ABORT")).unwrap_or(false);
+            t1.push(if hang { Tr::L(vec![Tr::n(6u8)]) } else { R::Panic.tr() });
             Tr::L(vec![Tr::L(t1)])
         }
     } else if !ran.drained {
@@ -476,6 +658,8 @@ fn case(out: &mut Out, kind: &str, inp: &Input) {
     if let Some(p) = &ran.panic {
         if p.starts_with("HANG") {
             fail(format!("hang: {}", p));
+        } else if p.starts_with("ABORT") {
+            fail(format!("abort: {}", p));
         } else {
             fail(format!("panic: {}", p));
         }
@@ -517,6 +701,34 @@ fn case(out: &mut Out, kind: &str, inp: &Input) {
         fail(format!("ended body polled {} more times while draining", ran.pae1));
     }
 
+    // memory: nothing larger than what an accepted length (<= limit; twice that for the
+    // decompression estimate) plus the received data can justify is ever requested
+    {
+        let lim = if inp.dir == Dir::Empty { DEFAULT_LIMIT } else { inp.max.unwrap_or(DEFAULT_LIMIT) };
+        let bound = lim
+            .saturating_mul(2)
+            .saturating_add(data.len() * 4)
+            .saturating_add(inp.buffer_size * 2)
+            .saturating_add(1 << 20);
+        if ran.max_alloc > bound {
+            fail(format!("a single allocation of {} bytes was requested (limit {}, {} data bytes received)", ran.max_alloc, lim, data.len()));
+        }
+        out.hist("largest_allocation", match ran.max_alloc { 0..=8192 => "<=8KiB", 8193..=65536 => "<=64KiB", 65537..=1048576 => "<=1MiB", 1048577..=8388608 => "<=8MiB", _ => ">8MiB" });
+    }
+
+    // truncation: a body made of data only that ends plainly inside a frame must yield an error
+    // before the end of the stream (scripts with trailers or body errors are judged by those).
+    // `--lenient-truncation` switches this part of the oracle off.
+    if !lenient_truncation()
+        && leftover > 0
+        && ran.panic.is_none()
+        && ran.drained
+        && !inp.evs.iter().any(|e| matches!(e, E::Trailers(_) | E::Err(_)))
+        && !ran.t1.iter().any(|r| matches!(r, R::Err(_)))
+    {
+        fail(format!("truncated input: {} bytes of an incomplete frame at the end of the body ended the stream cleanly", leftover));
+    }
+
     // ---- distribution
     let n_data = inp.evs.iter().filter(|e| matches!(e, E::Data(_))).count();
     out.hist("direction", match inp.dir { Dir::Request => "request", Dir::Response(_) => "response", Dir::Empty => "empty" });
@@ -524,17 +736,22 @@ fn case(out: &mut Out, kind: &str, inp: &Input) {
     out.hist("data_chunks", n_data.min(8));
     out.hist("complete_frames", frames.len().min(8));
     out.hist("data_len", match data.len() { 0 => "0", 1..=4 => "1-4", 5..=15 => "5-15", 16..=63 => "16-63", 64..=1023 => "64-1023", _ => ">=1024" });
-    out.hist("limit", inp.max.map(|m| m.to_string()).unwrap_or("default".into()));
+    out.hist("limit", match inp.max {
+        None => "default (4 MiB)".to_string(),
+        Some(m) if [0usize, 1, 5, 100].contains(&m) => m.to_string(),
+        Some(usize::MAX) => "usize::MAX".to_string(),
+        Some(_) => "tight (largest message + 0..100)".to_string(),
+    });
     let outcome = if ran.panic.is_some() { "panic" } else if !ran.drained { "hang" } else if ran.t1.iter().any(|r| matches!(r, R::Err(_))) {
         match ran.t1.iter().find_map(|r| if let R::Err(c) = r { Some(*c) } else { None }) { Some(13) => "err-internal", Some(11) => "err-out-of-range", _ => "err-other" }
     } else { "clean-end" };
     out.hist("outcome", outcome);
     out.hist("ok_messages", oks.len().min(8));
     out.hist("pending_events", inp.evs.iter().filter(|e| matches!(e, E::Pending)).count().min(6));
-    // observation (not part of the oracle): input cut inside a frame, yet the stream ended cleanly
+    // input cut inside a frame, yet the stream ended cleanly
     if leftover > 0 && outcome == "clean-end" {
         let ends_plain = !inp.evs.iter().any(|e| matches!(e, E::Trailers(_) | E::Err(_)));
-        out.hist("observation_truncated_input_clean_end", if ends_plain { "plain end of body (only possible with exactly the 5 prefix bytes buffered)" } else { "trailers or cancelled" });
+        out.hist("truncated_input_clean_end", if ends_plain { "plain end of body (must not happen)" } else { "script has trailers or a body error (not judged)" });
     }
 
     let model = format!(
@@ -842,6 +1059,10 @@ fn mutate(r: &mut Rng, enc: Option<Enc>, wire: &[u8]) -> (Vec<u8>, &'static str)
 }
 
 fn main() {
+    if std::env::args().any(|a| a == "--worker") {
+        worker_main();
+        return;
+    }
     let a = args();
     let mut out = Out::new(&a.out);
     let mut r = Rng::new(a.seed);
@@ -886,8 +1107,9 @@ fn main() {
             case(&mut out, "corpus.edge", &base(d, None, None, vec![], None));
             case(&mut out, "corpus.edge", &base(d, None, None, vec![E::Trailers(tr(OK_TRAILERS))], None));
             case(&mut out, "corpus.edge", &base(d, None, None, vec![E::Data(vec![0, 0, 0, 0, 0])], Some(vec![vec![]]).filter(|_| d != Dir::Response(500))));
-            // exactly the five prefix bytes, then the end of the body
-            case(&mut out, "corpus.edge", &base(d, None, None, vec![E::Data(vec![0, 0, 0, 0, 5])], None));
+
+            // F-C07e: exactly the five prefix bytes, then the end of the body
+            case(&mut out, "corpus.F-C07e", &base(d, None, None, vec![E::Data(vec![0, 0, 0, 0, 5])], None));
             // bytes of an incomplete frame, then trailers
             case(&mut out, "corpus.edge", &base(d, None, None, vec![E::Data(vec![0, 0, 0, 0, 5, 1, 2]), E::Trailers(tr(OK_TRAILERS))], None));
             case(&mut out, "corpus.edge", &base(d, None, None, vec![E::Data(fa.clone()), E::Err(1), E::Data(fb.clone())], None));
@@ -1022,6 +1244,40 @@ fn main() {
             let evs: Vec<E> = cut_at(&w, &cuts).into_iter().map(E::Data).collect();
             let expect = if a.thorough { Some(m.clone()) } else { None };
             case(&mut out, "valid.all-chunkings", &Input { dir: Dir::Request, enc: None, max: None, buffer_size: 8192, evs, expect });
+        }
+    }
+
+    // ---------------- large compressed messages ----------------------------------------------
+    // decompressed size beyond the 32 KiB inflate window with buffer sizes that do / do not
+    // divide it; compressed size beyond the decoders' internal input buffers
+    {
+        let mut bigs: Vec<(Enc, Vec<u8>, usize)> = vec![];
+        for e in ENCS {
+            for bs in [8192usize, 5000, 5] {
+                bigs.push((e, vec![7u8; 70_000], bs));
+            }
+        }
+        let mut rr = Rng::new(a.seed ^ 0xB16);
+        let mut noise = |n: usize| -> Vec<u8> {
+            let mut v = rr.bytes(n);
+            v[0] &= 0x7F;
+            v
+        };
+        bigs.push((Enc::Gzip, noise(33_000), 8192));
+        bigs.push((Enc::Deflate, noise(33_000), 8192));
+        if a.thorough {
+            bigs.push((Enc::Deflate, noise(40_000), 5000));
+            bigs.push((Enc::Gzip, noise(70_000), 64));
+            bigs.push((Enc::Zstd, noise(140_000), 8192));
+        }
+        for (e, m, bs) in bigs {
+            let mut wire = frame(0, b"first");
+            wire.extend(frame(1, &real_compress(e, &m)));
+            wire.extend(frame(0, b"last"));
+            let cuts = vec![3, 11, 12 + (wire.len() - 12) / 2];
+            let evs: Vec<E> = cut_at(&wire, &cuts).into_iter().map(E::Data).collect();
+            let inp = Input { dir: Dir::Request, enc: Some(e), max: None, buffer_size: bs, evs, expect: Some(vec![b"first".to_vec(), m, b"last".to_vec()]) };
+            case(&mut out, "valid.large-compressed", &inp);
         }
     }
 
